@@ -451,6 +451,13 @@ var envClock time.Time
 
 func SetProcessClock(t time.Time) { envClock = t }
 
+// SetNow pins the simulated clock to t.
+func SetNow(t time.Time) {
+	if w := world; w != nil {
+		w.clockOff = t.Sub(w.BaseTime)
+	}
+}
+
 // ClockJump moves the simulated clock.
 func ClockJump(d time.Duration) {
 	if w := world; w != nil {
